@@ -14,6 +14,7 @@
   elaborate within the time available.
 -/
 import DDProofs.Capacity3Quantify
+import DDProofs.Capacity3Cofactor
 import DDProps.C17Capacity2
 open Std
 
@@ -85,5 +86,43 @@ example : DynResult capSt.ext (QuantDoc false ["a", "b"] 2) capM
 example : DynTotal capSt.ext capM (applyCapQ 6 "\\E" 2 (some 3) none capM) :=
   C17_apply_all_full_dyn 6 capSt.ext capM capM_dynInv _ _ _ _
 
-end DD
+/-! ## `cofactor` / `let` with Boolean values -/
 
+theorem C17_cofactor_layer_is_model :
+    (∀ values f u ov c, cofactorFG findOrAdd values f u ov c = cofactorF values f u ov c) ∧
+    cofactorG findOrAdd = cofactor ∧ (∀ d u, letBoolsG cofactor d u = letOp (.bools d) u) :=
+  ⟨cofactorFG_model, cofactorG_model, letBoolsG_model⟩
+
+/-- GENERIC: `_cofactor` over ANY `find_or_add` with a three-outcome specification -/
+theorem C17_cofactor_over (E : Err → Prop) (foa : Int → Int → Int → M Int) (hfoa : FoaX E foa)
+    (values : List (Nat × Bool)) (f : Nat) (m : Mgr) (u : Int) (ordvar : List Nat)
+    (cache : HashMap Int Int) (hI : Inv m) (hu : m.tbl.Mem u) (hmemo : CofMemo values m.tbl cache)
+    (hord : ∀ j, (values.lookup j).isSome = true → m.tbl.levelOf u ≤ j → j ∈ ordvar)
+    (hf : m.nvars + 1 ≤ f + m.tbl.levelOf u) :
+    OutcomeX2 E m (fun r c m' => CofMemo values m'.tbl c ∧ CofEntry values m'.tbl u r)
+      (cofactorFG foa values f u ordvar cache m) :=
+  cofactorFG_outX E foa hfoa values f m u ordvar cache hI hu hmemo hord hf
+
+/-- C17 `_cofactor` with `max_nodes = cap`: restriction (memo sound) | aborted | `RuntimeError`,
+always `StepK` -/
+theorem C17_cofactor_full (cap : Nat) (values : List (Nat × Bool)) (f : Nat) (m : Mgr) (u : Int)
+    (ordvar : List Nat) (cache : HashMap Int Int) (hI : Inv m) (hu : m.tbl.Mem u)
+    (hmemo : CofMemo values m.tbl cache)
+    (hord : ∀ j, (values.lookup j).isSome = true → m.tbl.levelOf u ≤ j → j ∈ ordvar)
+    (hf : m.nvars + 1 ≤ f + m.tbl.levelOf u) :
+    OutcomeX2 (fun e => e = .runtime) m
+      (fun r c m' => CofMemo values m'.tbl c ∧ CofEntry values m'.tbl u r)
+      (cofactorFG (findOrAddCap cap) values f u ordvar cache m) :=
+  cofactorCapF_outX cap values f m u ordvar cache hI hu hmemo hord hf
+
+/-- C17 `BDD.cofactor` and `BDD.let` with Boolean values, `max_nodes = cap`: ANY node, ANY
+dictionary, whatever they return or raise: `DynTotal` -/
+theorem C17_cofactor_full_dyn (cap : Nat) (ext : Nat → Nat) (m : Mgr) (hD : DynInv ext m) :
+    (∀ u values, DynTotal ext m (cofactorCap cap u values m)) ∧
+    (∀ d u, DynTotal ext m (letBoolsG (cofactorCap cap) d u m)) :=
+  ⟨cofactorCap_total_dyn cap ext m hD, letBoolsCap_total_dyn cap ext m hD⟩
+
+example : DynTotal capSt.ext capM (cofactorCap 6 2 [(Key.name "a", true)] capM) :=
+  (C17_cofactor_full_dyn 6 capSt.ext capM capM_dynInv).1 _ _
+
+end DD
